@@ -298,6 +298,33 @@ fn run_hist(h: &History, cx: &mut Cx) -> CaseResult {
             }
         }
     }
+    // Another third end with a collector's lock file lying in the archive, last touched a few
+    // seconds, hours, days or more than a year ago (a collector that was killed, or one that is
+    // still at work): the backup may refuse, it may not remove or change the file.
+    if h.ops.len() % 3 == 1 {
+        let age_s: i64 = [5, 7_200, 3 * 86_400, 400 * 86_400][(h.ops.len() / 3) % 4];
+        let lock = w.arch.join("GC_LOCK");
+        if !lock.exists() {
+            std::fs::write(&lock, b"{}\n").unwrap();
+            let now = std::time::SystemTime::now().duration_since(std::time::UNIX_EPOCH).unwrap().as_secs() as i64;
+            tree::set_mtime(&lock, now - age_s, 0);
+            let before = format::raw_tree(&w.arch);
+            let ids_before: Vec<u32> = format::scan(&w.arch).bands.keys().copied().collect();
+            let s = w.apply(&crate::history::Op::Backup(Opts { hunk: 4, block: 256, cap: 100 }));
+            let after = format::raw_tree(&w.arch);
+            if let StepKind::Backup { log, new_band, report, .. } = &s {
+                ensure!(report.panic.is_none(), "C07/backup-panic", "with a lock file {age_s} s old: {}", report.describe());
+                check_backup_step(h.ops.len() + 1, &before, &after, log, &ids_before, *new_band).map_err(|mut f| {
+                    f.signature = format!("{}/lock-file-present", f.signature);
+                    f.message = format!("a GC_LOCK last touched {age_s} s ago was in the archive: {}", f.message);
+                    f
+                })?;
+                evals += 1;
+                cx.label("epilogue:lock-file-present");
+            }
+            let _ = std::fs::remove_file(&lock);
+        }
+    }
     cx.add_evals(evals);
     cx.label("history");
     cx.nontrivial = incremental_or_resumed;
@@ -372,6 +399,25 @@ fn run_race(
                         runs.push(Inner {
                             sch: Schedule(vec![(a as u8, *p), (1 - a as u8, u16::MAX)]),
                             faults: vec![RaceFault { actor: a, verb: Some(V::Write), prefix: "d/".into(), nth: *nth, kind, freeze_torn: false }],
+                        });
+                    }
+                }
+            }
+        }
+    }
+    // The same for the racer's writes into its version (head, first hunks, tail): it pauses
+    // after p operations, the other one runs through (and may have taken the id), the racer
+    // carries on and that write fails with something else than "already exists".
+    {
+        use crate::hooks::{Kind as EK, RaceFault};
+        for a in 0..2usize {
+            let pauses = scen::thin(&points[a], cx.tier.pick(6, 12));
+            for nth in [0u16, 1, 2] {
+                for kind in [EK::Other, EK::PermissionDenied, EK::NotFound] {
+                    for p in &pauses {
+                        runs.push(Inner {
+                            sch: Schedule(vec![(a as u8, *p), (1 - a as u8, u16::MAX)]),
+                            faults: vec![RaceFault { actor: a, verb: Some(V::Write), prefix: "b".into(), nth, kind, freeze_torn: false }],
                         });
                     }
                 }
